@@ -1,7 +1,7 @@
-from . import props_str, props_fmt, props_fv, props_hash, props_iter, props_own, props_opt
+from . import props_str, props_fmt, props_fv, props_hash, props_iter, props_own, props_opt, props_log
 
 PROPS = {}
-for mod in (props_str, props_fmt, props_fv, props_hash, props_iter, props_own, props_opt):
+for mod in (props_str, props_fmt, props_fv, props_hash, props_iter, props_own, props_opt, props_log):
     for v in vars(mod).values():
         if v.__class__.__name__ == "Prop":
             PROPS[v.pid] = v
